@@ -28,6 +28,7 @@ type Class struct {
 	Stages       [][]int // compose: non-error result types per stage
 	In           int     // fmape, bind, traverse: element type
 	Outs         []int   // fmape, joine, bind, traverse: non-error result types
+	Split        bool    // bind: `fn, e := deriveFmap(f, g)` observed before `deriveJoin(fn, e)` (else the nested call)
 }
 
 func wireName(n string) string {
@@ -84,8 +85,14 @@ func (c *Class) SigWire() string {
 		}
 		sb.WriteString(")")
 		return sb.String()
-	case "fmape", "bind", "traverse":
+	case "fmape", "traverse":
 		return wireTys("in", []int{c.In}) + " " + wireTys("outs", c.Outs)
+	case "bind":
+		sp := 0
+		if c.Split {
+			sp = 1
+		}
+		return wireTys("in", []int{c.In}) + " " + wireTys("outs", c.Outs) + " " + wireInts("split", []int{sp})
 	case "joine":
 		return wireTys("outs", c.Outs)
 	case "toerror":
@@ -125,6 +132,9 @@ func (c *Class) GoSig() string {
 	case "joine":
 		return "deriveJoin(" + sig(nil, c.Outs, "error") + ", error)"
 	case "bind":
+		if c.Split {
+			return "fn, e := deriveFmap(" + sig(unnamed([]int{c.In}), c.Outs, "error") + ", " + sig(nil, []int{c.In}, "error") + "); deriveJoin(fn, e)"
+		}
 		return "deriveJoin(deriveFmap(" + sig(unnamed([]int{c.In}), c.Outs, "error") + ", " + sig(nil, []int{c.In}, "error") + "))"
 	case "traverse":
 		return "deriveTraverse(" + sig(unnamed([]int{c.In}), c.Outs, "error") + ", []" + Types[c.In].Go + ")"
@@ -243,6 +253,14 @@ func (c *Class) Source() string {
 		w("\n// Run executes one op line on the derived wrapper and returns the observable outcome.\n")
 		w("func Run(op string, in map[string][]int) string {\n\ta := in[\"args\"]\n\t_ = a\n\tFail = in[\"fail\"]\n\tLog = nil\n%s}\n", body)
 	}
+	// runFn: for helpers that return a FUNCTION value. `build` creates it (and everything before the
+	// final invocation), then the log is snapshot ("what has been evaluated by the time the helper
+	// returned"), then the function is invoked twice, each time with a fresh log:
+	//   p:<log before the first invocation>#<outcome of invocation 1>#<outcome of invocation 2>
+	runFn := func(build string, vars []string, call, outcome string) {
+		run(build + "\tpre := join(Log, \"|\")\n\tinv := func() string {\n\t\tLog = nil\n\t\t" + assign(vars, call) +
+			"\n\t\treturn " + outcome + "\n\t}\n\to1 := inv()\n\to2 := inv()\n\treturn \"p:\" + pre + \"#\" + o1 + \"#\" + o2\n")
+	}
 	switch c.Kind {
 	case "curry", "flip", "apply", "uncurrycurry":
 		ts := ptys(c.Ps)
@@ -254,20 +272,24 @@ func (c *Class) Source() string {
 		}
 		w("}\n")
 		args := mkArgs(ts, 0)
-		var call string
+		var build, call string
 		switch c.Kind {
 		case "curry":
-			call = fmt.Sprintf("deriveCurry(F)(%s)(%s)", args[0], strings.Join(args[1:], ", "))
+			build = fmt.Sprintf("\tw := deriveCurry(F)(%s)\n", args[0])
+			call = fmt.Sprintf("w(%s)", strings.Join(args[1:], ", "))
 		case "flip":
 			fl := append([]string{args[1], args[0]}, args[2:]...)
-			call = fmt.Sprintf("deriveFlip(F)(%s)", strings.Join(fl, ", "))
+			build = "\tw := deriveFlip(F)\n"
+			call = fmt.Sprintf("w(%s)", strings.Join(fl, ", "))
 		case "apply":
 			n := len(args)
-			call = fmt.Sprintf("deriveApply(F, %s)(%s)", args[n-1], strings.Join(args[:n-1], ", "))
+			build = fmt.Sprintf("\tw := deriveApply(F, %s)\n", args[n-1])
+			call = fmt.Sprintf("w(%s)", strings.Join(args[:n-1], ", "))
 		case "uncurrycurry":
-			call = fmt.Sprintf("deriveUncurry(deriveCurry(F))(%s)", strings.Join(args, ", "))
+			build = "\tw := deriveUncurry(deriveCurry(F))\n"
+			call = fmt.Sprintf("w(%s)", strings.Join(args, ", "))
 		}
-		run(fmt.Sprintf("\t%s\n\treturn outcome(%s)\n", assign(rvars(len(c.Rs)), call), obsVars(c.Rs)))
+		runFn(build, rvars(len(c.Rs)), call, "outcome("+obsVars(c.Rs)+")")
 	case "uncurry":
 		ot, it := ptys(c.Outer), ptys(c.Inner)
 		w("// FC is the curried function under test.\n")
@@ -279,16 +301,15 @@ func (c *Class) Source() string {
 		}
 		w("\t}\n}\n")
 		args := mkArgs(append(append([]int{}, ot...), it...), 0)
-		call := fmt.Sprintf("deriveUncurry(FC)(%s)", strings.Join(args, ", "))
-		run(fmt.Sprintf("\t%s\n\treturn outcome(%s)\n", assign(rvars(len(c.Rs)), call), obsVars(c.Rs)))
+		runFn("\tw := deriveUncurry(FC)\n", rvars(len(c.Rs)), fmt.Sprintf("w(%s)", strings.Join(args, ", ")), "outcome("+obsVars(c.Rs)+")")
 	case "tuple":
 		args := mkArgs(c.Ts, 0)
-		call := fmt.Sprintf("deriveTuple(%s)()", strings.Join(args, ", "))
+		build := fmt.Sprintf("\tw := deriveTuple(%s)\n", strings.Join(args, ", "))
 		if c.FromCall {
 			w("func g(a []int)%s {\n\treturn %s\n}\n", goResults(c.Ts, ""), strings.Join(args, ", "))
-			call = "deriveTuple(g(a))()"
+			build = "\tw := deriveTuple(g(a))\n"
 		}
-		run(fmt.Sprintf("\t%s\n\treturn outcome(%s)\n", assign(rvars(len(c.Ts)), call), obsVars(c.Ts)))
+		runFn(build, rvars(len(c.Ts)), "w()", "outcome("+obsVars(c.Ts)+")")
 	case "compose":
 		in := c.Ins
 		names := make([]string, len(c.Stages))
@@ -299,8 +320,8 @@ func (c *Class) Source() string {
 			in = outs
 		}
 		last := c.Stages[len(c.Stages)-1]
-		call := fmt.Sprintf("deriveCompose(%s)(%s)", strings.Join(names, ", "), strings.Join(mkArgs(c.Ins, 0), ", "))
-		run(fmt.Sprintf("\t%s\n\treturn outcomeE(%s, err)\n", assign(append(rvars(len(last)), "err"), call), obsVars(last)))
+		runFn(fmt.Sprintf("\tw := deriveCompose(%s)\n", strings.Join(names, ", ")), append(rvars(len(last)), "err"),
+			fmt.Sprintf("w(%s)", strings.Join(mkArgs(c.Ins, 0), ", ")), "outcomeE("+obsVars(last)+", err)")
 	case "fmape":
 		w("func G()%s {\n\ta := []int{}\n\tlogStage(0, a)\n\treturn mk%d(hh(0, 0, a)), failErr(0)\n}\n\n", goResults([]int{c.In}, "error"), c.In)
 		w("func F(x0 %s)%s {\n\ta := %s\n\tlogStage(1, a)\n", Types[c.In].Go, goResults(c.Outs, ""), obsList([]int{c.In}, 0))
@@ -314,8 +335,9 @@ func (c *Class) Source() string {
 		case 1:
 			run(fmt.Sprintf("\tr0, err := deriveFmap(F, G)\n\treturn outcomeE(%s, err)\n", obsVars(c.Outs)))
 		default:
-			run(fmt.Sprintf("\tfn, err := deriveFmap(F, G)\n\tif fn == nil {\n\t\treturn outcomeE([]int{0}, err)\n\t}\n\t%s\n\treturn outcomeE(%s, err)\n",
-				assign(rvars(len(c.Outs)), "fn()"), obsVars(c.Outs)))
+			// the returned function must only hand out what was computed: f has run (once) when deriveFmap returns
+			runFn("\tw, err := deriveFmap(F, G)\n\tif w == nil {\n\t\treturn \"p:\" + join(Log, \"|\") + \"#nil:\" + showErr(err)\n\t}\n",
+				rvars(len(c.Outs)), "w()", "outcomeE("+obsVars(c.Outs)+", err)")
 		}
 	case "joine":
 		w("func F()%s {\n\ta := []int{}\n\tlogStage(1, a)\n\treturn %s\n}\n", goResults(c.Outs, "error"),
@@ -326,7 +348,11 @@ func (c *Class) Source() string {
 		w("func G()%s {\n\ta := []int{}\n\tlogStage(0, a)\n\treturn mk%d(hh(0, 0, a)), failErr(0)\n}\n\n", goResults([]int{c.In}, "error"), c.In)
 		w("func F(x0 %s)%s {\n\ta := %s\n\tlogStage(1, a)\n\treturn %s\n}\n", Types[c.In].Go, goResults(c.Outs, "error"), obsList([]int{c.In}, 0),
 			strings.Join(append(mkResults(c.Outs, "1"), "failErr(1)"), ", "))
-		run(fmt.Sprintf("\t%s\n\treturn outcomeE(%s, err)\n", assign(append(rvars(len(c.Outs)), "err"), "deriveJoin(deriveFmap(F, G))"), obsVars(c.Outs)))
+		if c.Split {
+			runFn("\tw, e1 := deriveFmap(F, G)\n", append(rvars(len(c.Outs)), "err"), "deriveJoin(w, e1)", "outcomeE("+obsVars(c.Outs)+", err)")
+		} else {
+			runFn("", append(rvars(len(c.Outs)), "err"), "deriveJoin(deriveFmap(F, G))", "outcomeE("+obsVars(c.Outs)+", err)")
+		}
 	case "traverse":
 		out := c.Outs[0]
 		w("var calls int\n\n")
@@ -341,8 +367,8 @@ func (c *Class) Source() string {
 		w("var F func(%s)%s = fImpl\n\n", goParams(c.Ps), goResults(c.Rs, "bool"))
 		w("func fImpl(%s)%s {\n\ta := %s\n\tlogStage(0, a)\n\treturn %s\n}\n", implParams(ts, 0), goResults(c.Rs, "bool"), obsList(ts, 0),
 			strings.Join(append(mkResults(c.Rs, "0"), "Ok"), ", "))
-		call := fmt.Sprintf("deriveToError(errOf(9, in[\"err\"][0]), F)(%s)", strings.Join(mkArgs(ts, 0), ", "))
-		run(fmt.Sprintf("\tOk = in[\"ok\"][0] != 0\n\t%s\n\treturn outcomeE(%s, err)\n", assign(append(rvars(len(c.Rs)), "err"), call), obsVars(c.Rs)))
+		runFn("\tOk = in[\"ok\"][0] != 0\n\tw := deriveToError(errOf(9, in[\"err\"][0]), F)\n", append(rvars(len(c.Rs)), "err"),
+			fmt.Sprintf("w(%s)", strings.Join(mkArgs(ts, 0), ", ")), "outcomeE("+obsVars(c.Rs)+", err)")
 	default:
 		panic("kind " + c.Kind)
 	}
